@@ -157,9 +157,35 @@ fn edits(schema: &Schema, doc: &Document) -> Vec<Edit> {
                 break;
             }
         }
+        // ... and as the spread of a fragment that exists (and is usually spread validly elsewhere) but
+        // whose type condition can never apply here
+        for fr in doc.fragments() {
+            if let Some(ft) = schema.find_type(&fr.on) {
+                let theirs: std::collections::BTreeSet<usize> = schema.possible_types(ft).into_iter().collect();
+                if !theirs.is_empty() && theirs.is_disjoint(&mine) && !mine.is_empty() {
+                    let n = fr.name.clone();
+                    out.push(mk(Rule::ImpossibleTypeCondition, &|s| s.push(Selection::Spread(n.clone()))));
+                    break;
+                }
+            }
+        }
         // remove __typename from an abstract selection
         if l.parent.is_abstract() {
             out.push(mk(Rule::MissingTypename, &|s| s.retain(|x| !matches!(x, Selection::Typename))));
+            // ... or let an ordinary field take its response key: `__typename: someLeaf` is not the meta field
+            if let Some(lf) = schema.fields_of(l.parent).iter().find(|d| !d.ty.named.is_composite() && d.args.is_empty()) {
+                let lfn = lf.name.clone();
+                out.push(mk(Rule::MissingTypename, &|s| {
+                    s.retain(|x| !matches!(x, Selection::Typename));
+                    s.insert(0, Selection::Field(FieldSel { alias: Some("__typename".into()), name: lfn.clone(), args: vec![], sel: vec![] }));
+                }));
+            }
+        } else {
+            // the alias `__typename` does not exempt a field from the schema lookup
+            out.push(mk(Rule::UnknownField, &|s| {
+                s.retain(|x| !matches!(x, Selection::Typename));
+                s.push(Selection::Field(FieldSel { alias: Some("__typename".into()), name: "zzNoSuchField".into(), args: vec![], sel: vec![] }));
+            }));
         }
         // per-field edits
         let sel_here: Vec<Selection> = {
@@ -181,6 +207,14 @@ fn edits(schema: &Schema, doc: &Document) -> Vec<Edit> {
                                 f.sel = vec![Selection::Typename];
                             }
                         }));
+                        if !l.parent.is_abstract() && !sel_here.iter().any(|x| matches!(x, Selection::Typename)) {
+                            out.push(mk(Rule::SubselectionOnLeaf, &|s| {
+                                if let Selection::Field(f) = &mut s[i] {
+                                    f.alias = Some("__typename".into());
+                                    f.sel = vec![Selection::Typename];
+                                }
+                            }));
+                        }
                     }
                 }
             }
